@@ -166,7 +166,33 @@ def run_case(case):
         one = np.asarray(m.log_likelihood(X[i]))
         ok = one.shape == (1,) and abs(float(one[0]) - LL[i]) <= 1e-12 * max(1.0, abs(LL[i]))
         c.check(ok, "single_vs_batch", lambda: f"sample {X[i].tolist()}: alone {one!r}, in batch {LL[i]!r}", tags)
+        if i % 5 == 0:
+            onew = np.asarray(m.log_weighted_likelihood(X[i]))
+            okw = onew.shape in ((C, 1), (C,)) and bool(np.all(np.abs(onew.reshape(C) - LWL[:, i]) <= 1e-12 * np.maximum(1.0, np.abs(LWL[:, i]))))
+            c.check(okw, "single_vs_batch", lambda: f"sample {X[i].tolist()}: per-component values alone {onew.tolist()}, in batch {LWL[:, i].tolist()}", tags)
         c.transitions += 1
+    # the same batch held in other containers: float32 (values re-read exactly from the float32 array) and, for
+    # integer-valued samples, int16/int32 - the result must be the float64 result for those values
+    if case.get("i", 0) % 2 == 0 or "stress" in case:
+        X32 = X.astype(np.float32)
+        Xv = X32.astype(float)
+        if np.all(np.isfinite(Xv)):
+            w32 = np.empty(n)
+            wl32 = np.empty((C, n))
+            for i in range(n):
+                l = og.dec_lwl(Xv[i], w, mu, vis)
+                wl32[:, i] = [float(v) for v in l]
+                w32[i] = float(og.dec_ll(l))
+            c.close(np.asarray(m.log_likelihood(X32), float), w32, "container_dtype", "log_likelihood of a float32 batch vs Decimal-60 on the same values", tags)
+            c.close(np.asarray(m.log_weighted_likelihood(X32), float), wl32, "container_dtype", "log_weighted_likelihood of a float32 batch", tags)
+            c.transitions += 2
+        ints = np.all(X == np.round(X), axis=1) & np.all(np.abs(X) < 2**15, axis=1)
+        if ints.any():
+            for dt in (np.int16, np.int32):
+                Xi = X[ints].astype(dt)
+                c.close(np.asarray(m.log_likelihood(Xi), float), LL[ints], "container_dtype", f"log_likelihood of an {np.dtype(dt).name} batch vs the float64 batch", tags, rtol=1e-12)
+                c.close(np.asarray(m.log_weighted_likelihood(Xi), float), LWL[:, ints], "container_dtype", f"log_weighted_likelihood of an {np.dtype(dt).name} batch", tags, rtol=1e-12)
+                c.transitions += 2
     st = m.acc_stats(X)
     c.close(float(st.log_likelihood), float(want_ll.sum()), "stats_loglik", "acc_stats(X).log_likelihood vs sum of sample log-likelihoods", tags,
             scale=float(np.abs(want_ll).max()) * n * 2.0**-10)
